@@ -1,0 +1,16 @@
+//go:build verif
+// +build verif
+
+package proxy
+
+// VerifUpstreamConfigs exposes the resolved upstream list (an unexported field) to the runtime
+// monitors. Compiled only with the `verif` build tag.
+func (uc *UpstreamConfigs) VerifUpstreamConfigs() []*UpstreamConfig {
+	return uc.upstreamConfigs
+}
+
+// VerifLoadServiceConfigs is a thin exported wrapper around loadServiceConfigs so that monitors can
+// pass template variables without mutating the process environment. Compiled only with `verif`.
+func VerifLoadServiceConfigs(raw []byte, cluster, scheme string, configVars map[string]string, defaultOpts *OptionsConfig) ([]*UpstreamConfig, error) {
+	return loadServiceConfigs(raw, cluster, scheme, configVars, defaultOpts)
+}
